@@ -390,8 +390,12 @@ class Verdict:
         self.violations.append((path, " no-failing-input-found"))
 
     def finish(self):
-        for fid, f in sorted(self.known_hit.items()):
-            print("KNOWN-FINDING: property=%s %s: %s" % (self.ctx.prop, fid, f.get("what", "")))
+        # every listed open finding of the property is announced; the ones this run reproduced are marked
+        listed = {f["id"]: f for f in self.findings if f.get("property") == self.ctx.prop and f.get("status") == "open"}
+        listed.update(self.known_hit)
+        for fid, f in sorted(listed.items()):
+            mark = "[reproduced in this run]" if fid in self.known_hit else "[listed; not exercised by this run's inputs]"
+            print("KNOWN-FINDING: property=%s %s %s: %s" % (self.ctx.prop, fid, mark, f.get("what", "")))
         for path, suffix in self.violations:
             print("VIOLATION property=%s replay=%s%s" % (self.ctx.prop, path, suffix))
         sys.stdout.flush()
